@@ -45,6 +45,7 @@ type C16End struct {
 }
 
 type C16Case struct {
+	Transport
 	Clients []C16Client `json:"clients"`
 	Ends    []C16End    `json:"ends"`
 }
@@ -101,6 +102,7 @@ func runC16(c C16Case) (res c16result) {
 	if err != nil {
 		return c16result{Fail: "fixture: " + err.Error()}
 	}
+	c.Transport.apply(b)
 	serverClosed := false
 	defer func() {
 		if !serverClosed {
@@ -479,6 +481,7 @@ func genC16Crowd(t *rapid.T) C16Case {
 		c.Ends = append(c.Ends, C16End{C: rapid.IntRange(0, n-1).Draw(t, "ec"), Cause: rapid.SampledFrom([]string{"close", "disconnect", "garbage"}).Draw(t, "cause")})
 	}
 	c.Ends = append(c.Ends, C16End{Cause: "serverclose"})
+	c.Transport = genTransport(t)
 	return c
 }
 
@@ -523,6 +526,7 @@ func genC16(t *rapid.T) C16Case {
 			break
 		}
 	}
+	c.Transport = genTransport(t)
 	return c
 }
 
